@@ -580,6 +580,25 @@ fire('norm11-bom-offset-leaks', ['C20', 'C13', 'C09'], ['NORM-11'], 'the zero-wi
 silent('s-norm11-first-line-flag', ['C20', 'C13', 'C09'], 'the BOM correction is expressed with a first-line flag',
        (PREFIX, "            column = -start\n            # The BOM has no width, but only the first line contains it.\n            bom = False\n", "            column, bom = -start, False\n"))
 
+# round-7 rules
+FILE_IO = 'parso/file_io.py'
+fire('cache6-mtime-memo', ['C16', 'C17'], ['CACHE-6'], 'FileIO.get_last_modified remembers the first modification time it saw (rt7-C16)',
+     (FILE_IO, "        try:\n            return os.path.getmtime(self.path)\n        except FileNotFoundError:\n            return None", "        if getattr(self, '_mtime', None) is None:\n            try:\n                self._mtime = os.path.getmtime(self.path)\n            except FileNotFoundError:\n                return None\n        return self._mtime"))
+fire('cache7-cleanup-by-mtime', ['C16', 'C17'], ['CACHE-7'], 'the clean-up decides by modification time (rt7-C17)',
+     (CACHE, "            if file.stat().st_atime + _CACHED_FILE_MAXIMUM_SURVIVAL <= time.time():", "            if file.stat().st_mtime + _CACHED_FILE_MAXIMUM_SURVIVAL <= time.time():"))
+silent('s-cache7-threshold-local', ['C16', 'C17'], 'the clean-up computes the cut-off once and compares the access time with it',
+       (CACHE, "        for file in os.scandir(version_path):\n            if file.stat().st_atime + _CACHED_FILE_MAXIMUM_SURVIVAL <= time.time():", "        for file in os.scandir(version_path):\n            last_access = file.stat().st_atime\n            if last_access + _CACHED_FILE_MAXIMUM_SURVIVAL <= time.time():"))
+fire('tree11-search-ancestor-single-collection', ['C11'], ['TREE-11'], 'search_ancestor unpacks a single argument and uses it as the container (rt7-C11)',
+     (TREE, "        node = self.parent\n        while node is not None:\n            if node.type in node_types:", "        if len(node_types) == 1:\n            node_types = node_types[0]\n        node = self.parent\n        while node is not None:\n            if node.type in node_types:"))
+fire('rx5-bom-consuming-codec', ['C15', 'C01'], ['RX-5'], "the detector answers 'utf-8-sig' for BOM-prefixed bytes (rt7-C01)",
+     (UTILS, "            # UTF-8 byte-order mark\n            return 'utf-8'", "            # UTF-8 byte-order mark\n            return 'utf-8-sig'"))
+fire('eff4-name-set-attribute', ['C13', 'C18'], ['EFF-4'], 'nonlocal names of sub-scopes are collected in a set and iterated (rt7-C18)',
+     (ERRORS, "        self._nonlocal_names_in_subscopes = []", "        self._nonlocal_names_in_subscopes = set()"),
+     (ERRORS, "        self._nonlocal_names_in_subscopes += child_context.finalize()", "        self._nonlocal_names_in_subscopes.update(child_context.finalize())"))
+fire('norm11-bom-cleared-after-newline-only', ['C20', 'C13', 'C09'], ['NORM-11'], 'the BOM correction is cleared after a newline part but not after a backslash part (rt7-C13)',
+     (PREFIX, "            column = -start\n            # The BOM has no width, but only the first line contains it.\n            bom = False\n", "            column = -start\n"),
+     (PREFIX, "        if type_ == 'bom':\n            bom = True\n", "        if type_ == 'bom':\n            bom = True\n        elif type_ == 'newline':\n            bom = False\n"))
+
 # TOK-3 typestate
 fire('tok3-comment-drops-prefix', ['C01', 'C09'], ['TOK-3'], 'a comment inside brackets replaces the pending prefix instead of extending it',
      (TOK, "                else:\n                    additional_prefix = prefix + token\n            elif token in triple_quoted:", "                else:\n                    additional_prefix = token\n            elif token in triple_quoted:"))
